@@ -380,7 +380,8 @@ def trace_function(path, fname, nargs, coef_tables, extra=(), abstract=(), max_p
         elif op == 'var': nodes.append(('var', nd[1]))
         elif op == 'coef': nodes.append(('coef', offs[nd[1]] + nd[2]))
         elif op in ('add', 'sub', 'mul', 'div'): nodes.append((op, ren[nd[1]], ren[nd[2]]))
-        elif op in ('neg', 'sqrt'): nodes.append((op, ren[nd[1]]))
+        elif op == 'neg': nodes.append((op, ren[nd[1]]))
+        elif op == 'sqrt': nodes.append(('sqrt', nh, ren[nd[1]])); nh += 1
         elif op == 'exp': nodes.append(('exp', nh, ren[nd[1]])); nh += 1
         elif op == 'pow': nodes.append(('pow', nh, ren[nd[1]], float.fromhex(nd[2]))); nh += 1
         elif op == 'call': nodes.append(('call', nh, nd[1], nd[2], tuple(ren[a] for a in nd[3]))); nh += 1
@@ -438,7 +439,8 @@ def eval_dag(tr, args, coefs, callee=None):
         elif op == 'mul': v = vals[nd[1]] * vals[nd[2]]
         elif op == 'div': v = _div(vals[nd[1]], vals[nd[2]])
         elif op == 'neg': v = -vals[nd[1]]
-        elif op == 'sqrt': v = _sqrt(vals[nd[1]])
+        elif op == 'sqrt':
+            v = _sqrt(vals[nd[2]]); hints[nd[1]] = v          # not used by the Coq evaluation (sqrt is IEEE there)
         elif op == 'cut': v = vals[nd[2]]
         elif op == 'exp':
             v = _exp(vals[nd[2]]); hints[nd[1]] = v; probes.append((nd[2], vals[nd[2]]))
@@ -499,8 +501,10 @@ def emit_traced(tr, name):
         elif op in ('add', 'sub', 'mul', 'div'):
             chk(nd[1], nd[2])
             items.append('N%s %d %d' % (op.capitalize(), rel(nd[1]), rel(nd[2])))
-        elif op in ('neg', 'sqrt'):
-            chk(nd[1]); items.append('N%s %d' % (op.capitalize(), rel(nd[1])))
+        elif op == 'neg':
+            chk(nd[1]); items.append('NNeg %d' % rel(nd[1]))
+        elif op == 'sqrt':
+            chk(nd[2]); items.append('NSqrt %d %d' % (nd[1], rel(nd[2])))
         elif op == 'exp':
             chk(nd[2]); items.append('NExp %d %d' % (nd[1], rel(nd[2])))
         elif op == 'pow':
